@@ -88,7 +88,7 @@ def _gz(path):
 
 def write_sed_file(path, name, wav, nu, apertures, flux, err, descending_wav=True,
                    fmt='D', legacy_units=True, flux_unit=None, distance_cm=None,
-                   gz=False, ap_unit=None):
+                   gz=False, ap_unit=None, nu_unit=None, err_unit=None):
     """One SED file per docs: HDU1 WAVELENGTH/FREQUENCY, HDU2 APERTURE, HDU3
     TOTAL_FLUX/TOTAL_FLUX_ERR (NAP rows of NWAV-vectors).  `wav` ascending on input;
     stored descending in wavelength (as the original packages are) or ascending."""
@@ -112,6 +112,9 @@ def write_sed_file(path, name, wav, nu, apertures, flux, err, descending_wav=Tru
         hdu0.header['DISTANCE'] = distance_cm
     uw, uf = ('MICRONS', 'HZ') if legacy_units else ('um', 'Hz')
     ufl = flux_unit or ('MJY' if legacy_units else 'mJy')
+    if nu_unit is not None:          # (unit string, Hz per unit): frequencies stored in e.g. GHz
+        uf, per = nu_unit
+        nu = nu / per
     hdu1 = fits.BinTableHDU.from_columns([_col('WAVELENGTH', wav, fmt, uw),
                                           _col('FREQUENCY', nu, fmt, uf)])
     hdu1.header['EXTNAME'] = 'WAVELENGTHS'
@@ -123,7 +126,7 @@ def write_sed_file(path, name, wav, nu, apertures, flux, err, descending_wav=Tru
     hdu2.header['EXTNAME'] = 'APERTURES'
     hdu3 = fits.BinTableHDU.from_columns([
         _col('TOTAL_FLUX', flux, '%d%s' % (n_wav, fmt), ufl),
-        _col('TOTAL_FLUX_ERR', err, '%d%s' % (n_wav, fmt), ufl)])
+        _col('TOTAL_FLUX_ERR', err, '%d%s' % (n_wav, fmt), err_unit or ufl)])
     hdu3.header['EXTNAME'] = 'SEDS'
     fits.HDUList([hdu0, hdu1, hdu2, hdu3]).writeto(path, overwrite=True)
     if gz:
